@@ -59,7 +59,7 @@ func satadd(a, b int64) int64 {
 func _req_setExpiresAfterRead[K comparable, V any](c *cache[K, V], n node.Node[K, V], nowNano int64, expiresAfter int64) bool {
 	return c.withExpiration && nowNano >= 0 && specExpiresAt(n) > nowNano
 }
-func _pre_setExpiresAfterRead[K comparable, V any](c *cache[K, V], n node.Node[K, V], nowNano int64, expiresAfter int64) int64 {
+func _pre_setExpiresAfterRead[K comparable, V any](c *cache[K, V], n node.Node[K, V]) int64 {
 	return specExpiresAt(n)
 }
 // [C12:read-exact] + [C12:never-in-the-past]
@@ -101,6 +101,23 @@ func _ens_set_installs[K comparable, V any](c *cache[K, V], key K, value V, only
 		implies(onlyIfAbsent && ghostPresent(c), ghostInstalled(c) == ghostSeen(c))
 }
 
+// ---- (*sketch).reset : loop 1 with a pointwise (skolemised) invariant; jstar/qstar are arbitrary but fixed
+func nib(w, j uint64) uint64 { return (w >> (j << 2)) & 0xf }
+func specElem[K comparable](s *sketch[K], j uint64) uint64 { return s.table[j] }
+func specLen[K comparable](s *sketch[K]) uint64            { return uint64(len(s.table)) }
+
+func _req_reset[K comparable](s *sketch[K]) bool              { return true }
+func _pre_reset[K comparable](s *sketch[K], jstar uint64) int64 { return int64(specElem(s, jstar)) }
+func _inv_reset_1[K comparable](s *sketch[K], i int, jstar uint64, old0 int64, len0 uint64) bool {
+	return i >= 0 && uint64(i) <= specLen(s) && specLen(s) == len0 &&
+		implies(jstar < uint64(i), specElem(s, jstar) == (uint64(old0)>>1)&resetMask) &&
+		implies(jstar >= uint64(i), specElem(s, jstar) == uint64(old0))
+}
+// [C18:reset-halves] every 4-bit counter of every word is halved
+func _ens_reset_halves[K comparable](s *sketch[K], jstar uint64, qstar uint64, old0 int64, len0 uint64) bool {
+	return implies(jstar < specLen(s) && qstar < 16, nib(specElem(s, jstar), qstar) == nib(uint64(old0), qstar)>>1) && specLen(s) == len0
+}
+
 // ---- (*policy).admit
 func _req_admit[K comparable, V any](p *policy[K, V], candidateKey, victimKey K) bool { return true }
 func _pre_admit[K comparable, V any](p *policy[K, V], candidateKey, victimKey K) int64  { return 0 }
@@ -123,9 +140,16 @@ type term struct {
 
 type loc struct {
 	cell  int    // >0: local cell
-	base  string // field: base ref term
+	base  string // field: base ref term / slice ref for elements
 	field string // heap key
+	idx   string // element index term ("" for fields)
 	typ   types.Type
+}
+
+type obligation struct {
+	name string
+	pc   []string
+	goal string
 }
 
 type val struct {
@@ -169,6 +193,11 @@ type ctx struct {
 	pkg     *ssa.Package
 	npaths  int
 	itf     bool // interference mode: shared mutable node fields are havocked after a critical section
+	obls    []obligation
+	spec    bool // evaluating a clause: no safety obligations
+	target  string
+	bindBy  func(st *state, name string, t types.Type) (val, bool)
+	skolem  map[string]val
 }
 
 func (x *ctx) declare(name, sortS string) {
@@ -305,8 +334,108 @@ func mask(w int) uint64 {
 	return (uint64(1) << uint(w)) - 1
 }
 
+func isLoopHeader(b *ssa.BasicBlock) bool {
+	for _, p := range b.Preds {
+		if b.Dominates(p) {
+			return true
+		}
+	}
+	return false
+}
+
+// loopRule implements the cut: assert the invariant, havoc what the loop may change, assume the invariant.
+func (x *ctx) loopRule(st *state, fr *frame, b *ssa.BasicBlock, prev *ssa.BasicBlock) (stop bool) {
+	ord := 1 // spike: one loop per function
+	inv := x.pkg.Func(fmt.Sprintf("_inv_%s_%d", x.target, ord))
+	if inv == nil {
+		panic("loop without invariant in " + x.target)
+	}
+	phiVal := func(useFresh bool) map[string]val {
+		m := map[string]val{}
+		for _, in := range b.Instrs {
+			ph, ok := in.(*ssa.Phi)
+			if !ok {
+				break
+			}
+			if useFresh {
+				m[ph.Comment] = fr.regs[ph]
+				continue
+			}
+			for pi, p := range b.Preds {
+				if p == prev {
+					m[ph.Comment] = x.get(fr, st, ph.Edges[pi])
+				}
+			}
+		}
+		return m
+	}
+	evalInv := func(s *state, vars map[string]val) string {
+		var parts []string
+		base := len(s.pc)
+		for _, o := range x.evalClause(s, inv, vars) {
+			t := o.ret.t.s
+			if extra := o.st.pc[base:]; len(extra) > 0 {
+				t = fmt.Sprintf("(=> (and %s) %s)", strings.Join(extra, " "), t)
+			}
+			parts = append(parts, t)
+		}
+		return "(and " + strings.Join(parts, " ") + ")"
+	}
+	kind := "inv-entry"
+	if b.Dominates(prev) {
+		kind = "inv-preserved"
+	}
+	x.obls = append(x.obls, obligation{name: fmt.Sprintf("%s/%s[loop %d]", x.target, kind, ord), pc: append([]string(nil), st.pc...), goal: evalInv(st, phiVal(false))})
+	if kind == "inv-preserved" {
+		return true
+	}
+	// havoc: loop-carried variables and every heap array stored to inside the loop
+	for _, in := range b.Instrs {
+		if ph, ok := in.(*ssa.Phi); ok {
+			fr.regs[ph] = val{t: x.freshVar("loop_"+ph.Comment, ph.Type())}
+		}
+	}
+	for _, lb := range b.Parent().Blocks {
+		if !b.Dominates(lb) {
+			continue
+		}
+		for _, in := range lb.Instrs {
+			if stI, ok := in.(*ssa.Store); ok {
+				switch a := stI.Addr.(type) {
+				case *ssa.IndexAddr:
+					k, _ := x.elemArr(st, a.Type().Underlying().(*types.Pointer).Elem())
+					x.fresh++
+					es, _ := x.sortOf(a.Type().Underlying().(*types.Pointer).Elem())
+					n := fmt.Sprintf("E_%s!loop%d", k, x.fresh)
+					x.declare(n, fmt.Sprintf("(Array (_ BitVec 64) (Array (_ BitVec 64) %s))", es))
+					st.heap[k] = n
+				case *ssa.FieldAddr:
+					key, ft := fieldKey(a.X.Type().Underlying().(*types.Pointer).Elem(), a.Field)
+					x.fresh++
+					es, _ := x.sortOf(ft)
+					n := fmt.Sprintf("H_%s!loop%d", key, x.fresh)
+					x.declare(n, fmt.Sprintf("(Array (_ BitVec 64) %s)", es))
+					st.heap[key] = n
+				}
+			}
+		}
+	}
+	st.pc = append(st.pc, evalInv(st, phiVal(true)))
+	return false
+}
+
 func (x *ctx) execFrom(st *state, fr *frame, b *ssa.BasicBlock, idx int, prev *ssa.BasicBlock, depth int) []outcome {
+	skipPhis := false
+	if idx == 0 && prev != nil && isLoopHeader(b) {
+		if x.loopRule(st, fr, b, prev) {
+			return nil
+		}
+		skipPhis = true
+	}
 	for i := idx; i < len(b.Instrs); i++ {
+		if _, isPhi := b.Instrs[i].(*ssa.Phi); isPhi && skipPhis {
+			continue
+		}
 		switch in := b.Instrs[i].(type) {
 		case *ssa.DebugRef:
 		case *ssa.Phi:
@@ -351,6 +480,15 @@ func (x *ctx) execFrom(st *state, fr *frame, b *ssa.BasicBlock, idx int, prev *s
 			base := x.get(fr, st, in.X)
 			key, ft := fieldKey(in.X.Type().Underlying().(*types.Pointer).Elem(), in.Field)
 			fr.regs[in] = val{isPtr: true, l: loc{base: base.t.s, field: key, typ: ft}}
+		case *ssa.IndexAddr:
+			sl := x.get(fr, st, in.X)
+			ix := x.get(fr, st, in.Index).t
+			elem := in.Type().Underlying().(*types.Pointer).Elem()
+			if !x.spec { // safety obligation: index in bounds (Go panics otherwise)
+				x.obls = append(x.obls, obligation{name: fmt.Sprintf("%s/in-bounds@%s", x.target, in.Name()), pc: append([]string(nil), st.pc...),
+					goal: fmt.Sprintf("(and (bvsge %s %s) (bvslt %s %s))", ix.s, bvlit(0, 64), ix.s, x.sliceLen(st, sl.t.s))})
+			}
+			fr.regs[in] = val{isPtr: true, l: loc{base: sl.t.s, idx: ix.s, typ: elem}}
 		case *ssa.Alloc:
 			x.fresh++
 			id := x.fresh
@@ -360,6 +498,9 @@ func (x *ctx) execFrom(st *state, fr *frame, b *ssa.BasicBlock, idx int, prev *s
 			v := x.get(fr, st, in.Val)
 			if p.l.cell > 0 {
 				st.cells[p.l.cell] = v
+			} else if p.l.idx != "" {
+				k, e := x.elemArr(st, p.l.typ)
+				st.heap[k] = fmt.Sprintf("(store %s %s (store (select %s %s) %s %s))", e, p.l.base, e, p.l.base, p.l.idx, v.t.s)
 			} else {
 				arr := x.heapArr(st, p.l.field, p.l.typ)
 				st.heap[p.l.field] = fmt.Sprintf("(store %s %s %s)", arr, p.l.base, v.t.s)
@@ -437,6 +578,25 @@ func (x *ctx) execFrom(st *state, fr *frame, b *ssa.BasicBlock, idx int, prev *s
 	panic("fell off block")
 }
 
+func (x *ctx) elemArr(st *state, elem types.Type) (string, string) {
+	es, _ := x.sortOf(elem)
+	key := "elem_" + strings.NewReplacer("(", "", ")", "", " ", "_").Replace(es)
+	if _, ok := st.heap[key]; !ok {
+		x.declare("E_"+key, fmt.Sprintf("(Array (_ BitVec 64) (Array (_ BitVec 64) %s))", es))
+		st.heap[key] = "E_" + key
+	}
+	return key, st.heap[key]
+}
+
+func (x *ctx) sliceLen(st *state, ref string) string {
+	if _, ok := st.heap["slicelen"]; !ok {
+		x.declare("H_slicelen", "(Array (_ BitVec 64) (_ BitVec 64))")
+		st.heap["slicelen"] = "H_slicelen"
+	}
+	l := fmt.Sprintf("(select %s %s)", st.heap["slicelen"], ref)
+	return l
+}
+
 func (x *ctx) load(st *state, p val, t types.Type) val {
 	if !p.isPtr {
 		panic("load of non-pointer")
@@ -446,6 +606,12 @@ func (x *ctx) load(st *state, p val, t types.Type) val {
 			return v
 		}
 		return val{t: x.zero(p.l.typ)}
+	}
+	if p.l.idx != "" {
+		_, e := x.elemArr(st, p.l.typ)
+		_, tm := x.sortOf(p.l.typ)
+		tm.s = fmt.Sprintf("(select (select %s %s) %s)", e, p.l.base, p.l.idx)
+		return val{t: tm}
 	}
 	arr := x.heapArr(st, p.l.field, p.l.typ)
 	_, tm := x.sortOf(p.l.typ)
@@ -556,7 +722,18 @@ func (x *ctx) call(st *state, fr *frame, in *ssa.Call, depth int) []outcome {
 		}
 		return nil
 	}
+	if bi, ok := c.Value.(*ssa.Builtin); ok && bi.Name() == "len" {
+		ref := x.get(fr, st, c.Args[0]).t.s
+		l := x.sliceLen(st, ref)
+		st.pc = append(st.pc, fmt.Sprintf("(bvsge %s %s)", l, bvlit(0, 64)))
+		fr.regs[in] = val{t: term{s: l, w: 64, k: "bv"}}
+		return nil
+	}
 	callee := c.StaticCallee()
+	if callee != nil && callee.Pkg != nil && callee.Pkg.Pkg.Path() == "math/bits" { // built-in model (spike: uninterpreted)
+		fr.regs[in] = val{t: x.freshVar("bits_"+callee.Name(), in.Type())}
+		return nil
+	}
 	if callee == nil { // call of an unknown function value (p.rand): user-callback rule, arbitrary result
 		fr.regs[in] = val{t: x.freshVar("ret_dyn", in.Type())}
 		return nil
@@ -649,6 +826,15 @@ func (x *ctx) call(st *state, fr *frame, in *ssa.Call, depth int) []outcome {
 	case "same":
 		fr.regs[in] = val{t: term{s: fmt.Sprintf("(= %s %s)", a[0].t.s, a[1].t.s), k: "bool"}}
 		return nil
+	case "specElem":
+		_, e := x.elemArr(st, types.Typ[types.Uint64])
+		tbl := x.heapArr(st, "sketch_table", types.NewSlice(types.Typ[types.Uint64]))
+		fr.regs[in] = val{t: term{s: fmt.Sprintf("(select (select %s (select %s %s)) %s)", e, tbl, a[0].t.s, a[1].t.s), w: 64, k: "bv"}}
+		return nil
+	case "specLen":
+		tbl := x.heapArr(st, "sketch_table", types.NewSlice(types.Typ[types.Uint64]))
+		fr.regs[in] = val{t: term{s: x.sliceLen(st, fmt.Sprintf("(select %s %s)", tbl, a[0].t.s)), w: 64, k: "bv"}}
+		return nil
 	case "specExpiresAt":
 		exp := x.heapArr(st, "node_expiresAt", types.Typ[types.Int64])
 		fr.regs[in] = val{t: term{s: fmt.Sprintf("(select %s %s)", exp, a[0].t.s), w: 64, k: "bv"}}
@@ -703,82 +889,122 @@ func (x *ctx) lookup(name string) *ssa.Function {
 	return nil
 }
 
+// evalClause runs a clause function on state s; parameters are bound by NAME: target parameters,
+// then the given variables (results, old0, loop-carried variables), then per-verification skolem constants.
+func (x *ctx) evalClause(s *state, cf *ssa.Function, vars map[string]val) []outcome {
+	cfr := &frame{fn: cf, regs: map[ssa.Value]val{}}
+	for _, p := range cf.Params {
+		if v, ok := vars[p.Name()]; ok {
+			cfr.regs[p] = v
+		} else if v, ok := x.bindBy(s, p.Name(), p.Type()); ok {
+			cfr.regs[p] = v
+		} else {
+			if _, ok := x.skolem[p.Name()]; !ok {
+				x.skolem[p.Name()] = val{t: x.freshVar("sk_"+p.Name(), p.Type())}
+			}
+			cfr.regs[p] = x.skolem[p.Name()]
+		}
+	}
+	was := x.spec
+	x.spec = true
+	defer func() { x.spec = was }()
+	return x.execFrom(s.clone(), cfr, cf.Blocks[0], 0, nil, 1)
+}
+
 func verify(prog *ssa.Program, pkg *ssa.Package, target string, ensures []string, itf bool) []result {
-	x := &ctx{seen: map[string]bool{}, sorts: map[string]bool{}, prog: prog, pkg: pkg, itf: itf}
+	x := &ctx{seen: map[string]bool{}, sorts: map[string]bool{}, prog: prog, pkg: pkg, itf: itf, target: target, skolem: map[string]val{}}
 	fn := x.lookup(target)
 	if fn == nil {
 		panic("no function " + target)
 	}
 	st := &state{heap: map[string]string{}, cells: map[int]val{}, ghost: map[string]string{}, x: x}
 	fr := &frame{fn: fn, regs: map[ssa.Value]val{}}
+	byName := map[string]val{}
 	var params []val
 	for _, p := range fn.Params {
 		v := val{t: x.freshVar("arg_"+p.Name(), p.Type())}
 		fr.regs[p] = v
 		params = append(params, v)
+		byName[p.Name()] = v
 	}
-	evalClause := func(s *state, name string, extra ...val) []outcome {
+	x.bindBy = func(_ *state, name string, _ types.Type) (val, bool) { v, ok := byName[name]; return v, ok }
+	clause := func(name string) *ssa.Function {
 		cf := pkg.Func(name)
 		if cf == nil {
 			panic("no clause " + name)
 		}
-		cfr := &frame{fn: cf, regs: map[ssa.Value]val{}}
-		all := append(append([]val{}, params...), extra...)
-		for i, p := range cf.Params {
-			cfr.regs[p] = all[i]
-		}
-		return x.execFrom(s.clone(), cfr, cf.Blocks[0], 0, nil, 1)
+		return cf
 	}
-	// requires: assume (all clause paths)
-	base := len(st.pc)
-	for _, o := range evalClause(st, "_req_"+target) {
-		imp := o.ret.t.s
-		if extra := o.st.pc[base:]; len(extra) > 0 {
-			imp = fmt.Sprintf("(=> (and %s) %s)", strings.Join(extra, " "), imp)
+	conj := func(s *state, cf *ssa.Function, vars map[string]val) string {
+		var parts []string
+		base := len(s.pc)
+		for _, o := range x.evalClause(s, cf, vars) {
+			t := o.ret.t.s
+			if extra := o.st.pc[base:]; len(extra) > 0 {
+				t = fmt.Sprintf("(=> (and %s) %s)", strings.Join(extra, " "), t)
+			}
+			parts = append(parts, t)
 		}
-		st.pc = append(st.pc, imp)
+		return "(and " + strings.Join(parts, " ") + ")"
 	}
-	pre := evalClause(st, "_pre_"+target)[0].ret
+	// requires: assumed; pre-state values captured (old0, len0)
+	st.pc = append(st.pc, conj(st, clause("_req_"+target), nil))
+	byName["old0"] = x.evalClause(st, clause("_pre_"+target), nil)[0].ret
+	if lf := pkg.Func("specLen"); lf != nil && target == "reset" {
+		byName["len0"] = x.evalClause(st, lf, nil)[0].ret
+	}
 	outs := x.execFrom(st, fr, fn.Blocks[0], 0, nil, 0)
+	var gv []string
+	for _, p := range params {
+		if p.t.k == "bv" || p.t.k == "bool" {
+			gv = append(gv, p.t.s)
+		}
+	}
+	check := func(pc []string, goal string) (string, string) {
+		var b bytes.Buffer
+		b.WriteString("(set-option :produce-models true)\n(set-logic ALL)\n")
+		for _, d := range x.decls {
+			b.WriteString(d + "\n")
+		}
+		for _, p := range pc {
+			b.WriteString("(assert " + p + ")\n")
+		}
+		b.WriteString("(assert (not " + goal + "))\n(check-sat)\n")
+		return solve(b.String(), gv)
+	}
 	var results []result
+	// safety and loop obligations recorded during execution
+	for _, o := range x.obls {
+		start := time.Now()
+		r := result{name: o.name, status: "discharged"}
+		if sat, model := check(o.pc, o.goal); sat != "unsat" {
+			r.status, r.model = "FAILED ("+sat+")", model
+		}
+		r.ms = time.Since(start).Milliseconds()
+		results = append(results, r)
+	}
 	for _, e := range ensures {
 		r := result{name: target + "/ensures[" + e + "]", status: "discharged"}
 		start := time.Now()
 		for pi, o := range outs {
-			extra := []val{}
-			if fn.Signature.Results().Len() == 1 {
-				extra = append(extra, o.ret)
-			} else {
-				extra = append(extra, o.ret.tuple...)
+			vars := map[string]val{}
+			switch {
+			case fn.Signature.Results().Len() == 1:
+				vars["result"] = o.ret
+			case fn.Signature.Results().Len() > 1:
+				for i, v := range o.ret.tuple {
+					vars[fmt.Sprintf("r%d", i)] = v
+				}
 			}
-			extra = append(extra, pre)
-			for _, co := range evalClause(o.st, "_ens_"+target+"_"+e, extra...) {
-				var b bytes.Buffer
-				b.WriteString("(set-option :produce-models true)\n(set-logic ALL)\n")
-				for _, d := range x.decls {
-					b.WriteString(d + "\n")
-				}
-				for _, p := range co.st.pc {
-					b.WriteString("(assert " + p + ")\n")
-				}
-				b.WriteString("(assert (not " + co.ret.t.s + "))\n(check-sat)\n")
-				var gv []string
-				for _, p := range params {
-					if p.t.k == "bv" || p.t.k == "bool" {
-						gv = append(gv, p.t.s)
-					}
-				}
-				sat, model := solve(b.String(), gv)
-				if sat != "unsat" {
-					r.status = fmt.Sprintf("FAILED (%s) on path %d", sat, pi)
-					r.model = model
-				}
+			if sat, model := check(o.st.pc, conj(o.st, clause("_ens_"+target+"_"+e), vars)); sat != "unsat" {
+				r.status = fmt.Sprintf("FAILED (%s) on path %d", sat, pi)
+				r.model = model
 			}
 		}
 		r.ms = time.Since(start).Milliseconds()
 		results = append(results, r)
 	}
-	fmt.Printf("%-28s paths=%d decls=%d\n", target, x.npaths, len(x.decls))
+	fmt.Printf("%-28s paths=%d decls=%d obligations=%d\n", target, x.npaths, len(x.decls), len(x.obls)+len(ensures))
 	return results
 }
 
@@ -827,6 +1053,7 @@ func main() {
 		r.name += "[itf]"
 		all = append(all, r)
 	}
+	all = append(all, verify(prog, spkgs[0], "reset", []string{"halves"}, false)...)
 	for _, r := range all {
 		fmt.Printf("  %-58s %-28s %4d ms  %s\n", r.name, r.status, r.ms, r.model)
 	}
